@@ -60,6 +60,10 @@ fn many_maps_strategy(tier: Tier, _index: u64) -> BoxedStrategy<History> {
             for i in 0..n {
                 pre.push(Op::Use { m: i as u16 });
                 pre.push(Op::Put { k: (i % 3) as u32, v: Val::P { len: 3, seed: i as u32 } });
+                if i == n / 2 || i == n / 3 {
+                    // the maps opened so far become clean (synced, not written since)
+                    pre.push(Op::DbSyncAll);
+                }
             }
             pre.extend(ops);
             History {
